@@ -547,11 +547,16 @@ struct G {
     rng: Rng,
     depth: u32,
     budget: i32,
-    pending: Vec<String>,
+    bodies: Vec<String>,
     /// surface variation on/off
     vary: bool,
 }
 
+const NL: char = '\u{E000}';
+const HD_OPEN: char = '\u{E001}';
+const HD_CLOSE: char = '\u{E002}';
+/// newline ending the word list of `for … in …`: the parser reads no here-document bodies there
+const FOR_NL: char = '\u{E003}';
 const NAMES: &[&str] = &["a", "x", "foo", "BAR", "_v1", "PATH", "i", "n0"];
 const CMDS: &[&str] = &["echo", "cat", ":", "printf", "true", "ls", "f", "test", "[", "cmd-1", "./run", "a.out", "do_it", "if1", "x2"];
 const KEYWORDS: &[&str] = &["!", "[[", "]]", "case", "do", "done", "elif", "else", "esac", "fi", "for", "function", "if", "in", "namespace", "select", "then", "until", "while", "{", "}"];
@@ -566,7 +571,7 @@ fn is_name_char(c: char) -> bool {
 
 impl G {
     fn new(seed: u64, budget: i32, vary: bool) -> G {
-        G { rng: Rng::new(seed), depth: 0, budget, pending: vec![], vary }
+        G { rng: Rng::new(seed), depth: 0, budget, bodies: vec![], vary }
     }
     fn ch(&mut self, n: u32, d: u32) -> bool {
         self.rng.chance(n, d)
@@ -591,23 +596,63 @@ impl G {
     fn osp(&mut self) -> String {
         if self.vary && self.ch(1, 3) { self.sp() } else { String::new() }
     }
-    /// newline (flushes pending here-document bodies)
+    /// newline token (placeholder; `resolve` puts the pending here-document bodies after it)
     fn nl(&mut self) -> String {
         let mut s = String::new();
         if self.vary && self.ch(1, 8) {
             s.push_str(" # a comment; with ' and \" and $( and \\");
         }
-        s.push('\n');
-        for b in self.pending.drain(..) {
-            s.push_str(&b);
-        }
+        s.push(NL);
         if self.vary && self.ch(1, 8) {
-            s.push_str("\n");
+            s.push(NL);
         }
         if self.vary && self.ch(1, 12) {
-            s.push_str("  # full-line comment\n");
+            s.push_str("  # full-line comment");
+            s.push(NL);
         }
         s
+    }
+    /// replaces newline placeholders by newlines followed by the bodies of the here-documents whose
+    /// operators precede them
+    fn resolve(&self, src: &str) -> String {
+        let mut out = String::new();
+        let mut queue: Vec<usize> = vec![];
+        let mut it = src.chars();
+        while let Some(c) = it.next() {
+            if c == NL {
+                out.push('\n');
+                for i in queue.drain(..) {
+                    out.push_str(&self.bodies[i]);
+                }
+            } else if c == FOR_NL {
+                if queue.is_empty() {
+                    out.push('\n');
+                } else {
+                    out.push_str(";\n");
+                    for i in queue.drain(..) {
+                        out.push_str(&self.bodies[i]);
+                    }
+                }
+            } else if c == HD_OPEN {
+                let mut n = String::new();
+                for d in it.by_ref() {
+                    if d == HD_CLOSE {
+                        break;
+                    }
+                    n.push(d);
+                }
+                queue.push(n.parse().unwrap());
+            } else {
+                out.push(c);
+            }
+        }
+        if !queue.is_empty() {
+            out.push('\n');
+            for i in queue.drain(..) {
+                out.push_str(&self.bodies[i]);
+            }
+        }
+        out
     }
     /// separator standing for `;` between two items or before a closing keyword
     fn sep(&mut self) -> String {
@@ -723,7 +768,11 @@ impl G {
                 let side = *self.rng.pick(&['#', '%']);
                 let long = self.ch(1, 2);
                 // the pattern is always lexed in a word context (modifier.rs `trim`)
-                let (wsx, wsrc) = self.word(Ctx::Brace, true);
+                let (mut wsx, mut wsrc) = self.word(Ctx::Brace, true);
+                if !long && wsrc.starts_with(side) {
+                    // `${x%%…}` is the longest-match form: a shortest-match pattern cannot start with the bare symbol
+                    (wsx, wsrc) = ("(w)".to_string(), String::new());
+                }
                 if id == "#" && side == '#' && !long && wsrc.is_empty() {
                     return (format!("(bp {} len)", hex(&id)), format!("${{#{id}}}"));
                 }
@@ -741,14 +790,13 @@ impl G {
             return (format!("(cs {})", hex(s)), format!("$({s})"));
         }
         self.depth += 1;
-        let saved = std::mem::take(&mut self.pending);
         let n_items = 1 + self.rng.below(2);
-        let (_, mut src) = self.list_body(n_items, false);
-        if !self.pending.is_empty() {
-            let n = self.nl();
-            src.push_str(&n);
+        let (_, src) = self.list_body(n_items, false);
+        let mut src = self.resolve(&src);
+        if src.starts_with('(') {
+            // `$((` would start an arithmetic expansion
+            src.insert(0, ' ');
         }
-        self.pending = saved;
         self.depth -= 1;
         (format!("(cs {})", hex(&src)), format!("$({src})"))
     }
@@ -1132,8 +1180,9 @@ impl G {
             }
             body.push_str(&dplain);
             body.push('\n');
-            self.pending.push(body);
-            return (format!("(h {fdsx} {} {dsx})", rt as u8), format!("{fdsrc}{op}{gap}{dsrc}"));
+            self.bodies.push(body);
+            let id = self.bodies.len() - 1;
+            return (format!("(h {fdsx} {} {dsx})", rt as u8), format!("{fdsrc}{op}{gap}{dsrc}{HD_OPEN}{id}{HD_CLOSE}"));
         }
         let op = self.pick(&["<", "<>", ">", ">>", ">|", "<&", ">&", ">>|", "<<<"]);
         let (wsx, wsrc) = match self.rng.below(5) {
@@ -1163,7 +1212,8 @@ impl G {
                 let mut src = format!("{name}=(");
                 for i in 0..n {
                     let (a, b) = self.arg();
-                    let s = if i == 0 { self.osp() } else { self.linebreak() };
+                    // a newline inside an array literal is not a point where here-document bodies are read
+                    let s = if i == 0 { self.osp() } else if self.vary && self.ch(1, 4) { "\n".to_string() } else { self.sp() };
                     write!(sx, " {a}").unwrap();
                     src.push_str(&s);
                     src.push_str(&b);
@@ -1183,7 +1233,16 @@ impl G {
                 (format!("(as {} {sx})", hex(name)), format!("{name}={src}"))
             }
             _ => {
-                let (a, b) = self.word(Ctx::Token, false);
+                let (mut a, mut b) = self.word(Ctx::Token, false);
+                for _ in 0..5 {
+                    if !b.contains('~') {
+                        break;
+                    }
+                    (a, b) = self.word(Ctx::Token, false);
+                }
+                if b.contains('~') {
+                    (a, b) = Self::literal_word("v");
+                }
                 // a value that starts with `(`-less text only; `~` first would be a tilde expansion
                 (format!("(as {} {a})", hex(name)), format!("{name}={b}"))
             }
@@ -1244,7 +1303,12 @@ impl G {
                         continue;
                     }
                 }
-                words.push(self.arg());
+                let w = self.arg();
+                if decl && w.1 == "a=b" {
+                    words.push((format!("(single {})", w.0), w.1));
+                } else {
+                    words.push(w);
+                }
             }
         }
         if assigns.is_empty() && words.is_empty() && redirs.is_empty() {
@@ -1373,11 +1437,11 @@ impl G {
 
     fn function_def(&mut self) -> Pair {
         let name = self.pick(&["f", "foo", "do_it", "a.b", "x-1"]);
-        let (bsx, bsrc) = self.full_compound_parts();
         let a = self.osp();
         let b = self.osp();
         let c = self.linebreak();
-        let c = if c.trim().is_empty() && !c.contains('\n') { self.osp() } else { c };
+        let c = if c.trim().is_empty() && !c.contains(NL) { self.osp() } else { c };
+        let (bsx, bsrc) = self.full_compound_parts();
         (format!("(fn 0 (w (L {})) {bsx})", hex(name)), format!("{name}{a}({b}){c}{bsrc}"))
     }
 
@@ -1430,7 +1494,12 @@ impl G {
                     }
                     v.push(')');
                     vsx = v;
-                    src.push_str(&self.sep());
+                    let t = match self.rng.below(3) {
+                        0 if self.vary => format!("{}{FOR_NL}{}", self.osp(), self.osp()),
+                        1 => format!("{};{}", self.osp(), self.linebreak()),
+                        _ => format!("{};{}", self.osp(), self.osp()),
+                    };
+                    src.push_str(&t);
                 } else {
                     vsx = "-".to_string();
                     // `for x do`, `for x; do`, `for x <newline> do`
@@ -1464,7 +1533,7 @@ impl G {
                     let (csx, csrc) = self.list_body(1, true);
                     let s2 = self.linebreak();
                     let (bsx, bsrc) = self.list_body(1, true);
-                    write!(elifs, "(elif {csx} {bsx})").unwrap();
+                    write!(elifs, "(elif {csx} {bsx}) ").unwrap();
                     write!(src, "elif{s1}{csrc}then{s2}{bsrc}").unwrap();
                 }
                 elifs.push(')');
@@ -1512,8 +1581,6 @@ impl G {
                     src.push(')');
                     src.push_str(&self.linebreak());
                     let last = i + 1 == items;
-                    let (bsx, bsrc) = if self.ch(1, 5) { ("(ls)".to_string(), String::new()) } else { self.list_body(1, false) };
-                    src.push_str(&bsrc);
                     let (k, op) = match self.rng.below(6) {
                         0 => ("f", ";&"),
                         1 => ("c", ";|"),
@@ -1521,7 +1588,12 @@ impl G {
                         3 if last => ("b", ""),
                         _ => ("b", ";;"),
                     };
-                    src.push_str(&self.osp());
+                    // without a terminator the body must be closed before `esac`
+                    let (bsx, bsrc) = if self.ch(1, 5) { ("(ls)".to_string(), String::new()) } else { self.list_body(1, op.is_empty()) };
+                    src.push_str(&bsrc);
+                    // `;;;` would be read as `;;` `;`
+                    let gap = if bsrc.trim_end().ends_with(';') && !bsrc.ends_with(' ') { " ".to_string() } else { self.osp() };
+                    src.push_str(&gap);
                     src.push_str(op);
                     src.push_str(&self.linebreak());
                     write!(sx, " (ci ({}) {bsx} {k})", pats.trim_end()).unwrap();
@@ -1541,10 +1613,11 @@ impl G {
 
     fn script(&mut self, items: usize) -> Pair {
         let (sx, mut src) = self.list_body(items, false);
-        if !self.pending.is_empty() || (self.vary && self.ch(1, 3)) {
+        if self.vary && self.ch(1, 3) {
             let n = self.nl();
             src.push_str(&n);
         }
+        let src = self.resolve(&src);
         (sx, src)
     }
 }
@@ -1678,6 +1751,15 @@ fn main() {
                     println!("--- printed\n{}", dec_str(p).unwrap_or_default());
                 }
             }
+        }
+        return;
+    }
+    if o.extra.first().map(|s| s.as_str()) == Some("--parse") {
+        let mut src = String::new();
+        std::io::Read::read_to_string(&mut std::io::stdin(), &mut src).unwrap();
+        match List::from_str(&src) {
+            Ok(l) => println!("OK: {l}\n{}", sx_of(&l).0),
+            Err(e) => println!("ERR: {:?} at {:?}", e.cause, e.location.range),
         }
         return;
     }
